@@ -71,7 +71,7 @@ def run(prop, tier):
             # the property's antecedent: some earlier stage packages values
             progs = [p for p in progs if has_kind(p, PACK)]
         if keep is not None:
-            progs = common.subsample(progs, keep, salt=name)
+            progs = common.subsample_stratified(progs, keep, salt=name)
         fam_counts[name] = {"generated": total, "replayed": len(progs), "budget": budget,
                             "exhaustive": keep is None or total <= keep}
         for p in progs:
